@@ -599,7 +599,7 @@ func (p *parser) scanString(offset int) (string, error) {
 	// " ' /
 	quote := rune(p.str[offset])
 
-	for p.chr != quote {
+	for p.chr != quote || p.chr < 0 {
 		chr := p.chr
 		if chr == '\n' || chr == '\r' || chr == '\u2028' || chr == '\u2029' || chr < 0 {
 			goto newline
@@ -632,7 +632,7 @@ func (p *parser) scanString(offset int) (string, error) {
 newline:
 	p.scanNewline()
 	err := "String not terminated"
-	if quote == '/' {
+	if quote == '/' || quote < 0 { // a regular expression, possibly inside a class
 		err = "Invalid regular expression: missing /"
 		p.error(p.idxOf(offset), err)
 	}
